@@ -6154,7 +6154,7 @@ class CodegenCtx:
         """
         if isinstance(state, DFConditionPoint):
             return True
-        return bool(state.transitions) and all(x.is_fallthrough and x.target == state.transitions[0].target and not x.actions for x in state.transitions) \
+        return bool(state.transitions) and all(x.is_fallthrough and x.target == state.transitions[0].target and x.actions == state.transitions[0].actions for x in state.transitions) \
                 and any(DFTransition.Else in x.on_values for x in state.transitions)
 
     def _generate_condition(self, condition: DFCondition, from_end=False, from_action=False):
